@@ -60,7 +60,6 @@ type gnResult struct {
 }
 
 var (
-	gnOnce   sync.Once
 	gnDir    string // holds the gennames binary and the stub directory; removed by Close
 	gnBin    string
 	gnStub   string // directory holding the stub `go`
@@ -95,9 +94,14 @@ func main() {
 }
 `
 
-// gnSetup builds gennames from the working tree and the stub, once per run.
+// gnSetup builds gennames from the working tree and the stub, once per run (until Close).
 func gnSetup() error {
-	gnOnce.Do(func() {
+	gnDirsMu.Lock()
+	defer gnDirsMu.Unlock()
+	if gnDir != "" || gnErr != nil {
+		return gnErr
+	}
+	func() {
 		dir, err := os.MkdirTemp("", "verif-c18-stub-")
 		if err != nil {
 			gnErr = err
@@ -139,7 +143,7 @@ func gnSetup() error {
 		if out, err := s.CombinedOutput(); err != nil {
 			gnErr = fmt.Errorf("go build of the stub: %v: %s", err, truncateStr(string(out), 1000))
 		}
-	})
+	}()
 	return gnErr
 }
 
@@ -149,8 +153,8 @@ func (c18) Close() {
 	defer gnDirsMu.Unlock()
 	if gnDir != "" {
 		os.RemoveAll(gnDir)
-		gnDir = ""
 	}
+	gnDir, gnErr = "", nil // a later Generate in the same process builds again
 }
 
 var gnPanicRe = regexp.MustCompile(`(?m)^panic: (.*)$`)
@@ -386,10 +390,10 @@ func gnReference(g gnCase) gnRef {
 		if gl.selected && len(f) < 3 {
 			ref.short = true
 		}
-		if gl.selected && len(f) >= 3 {
+		if len(f) >= 3 {
 			p, vend := gnUnvendor(f[1])
 			gl.path, gl.name = p, f[2]
-			gl.eligible = f[2] != "main" && !(g.Novendor && vend) && (g.Filter == "" || strings.Contains(f[1], g.Filter))
+			gl.eligible = gl.selected && f[2] != "main" && !(g.Novendor && vend) && (g.Filter == "" || strings.Contains(f[1], g.Filter))
 		}
 		if gl.eligible && ref.table[gl.path] == "" {
 			ref.table[gl.path] = gl.name // first non-empty name wins; an empty name is kept until then
@@ -694,8 +698,11 @@ func gnBase(p string) string {
 func gnRandLine(r *rand.Rand, paths []string, allowShort bool) string {
 	p := paths[r.Intn(len(paths))]
 	n := gnBase(p)
-	if r.Intn(3) == 0 {
+	switch k := r.Intn(12); {
+	case k < 3:
 		n = gnNames[r.Intn(len(gnNames))]
+	case k == 3 || (k < 9 && (strings.HasPrefix(p, "cmd/") || strings.Contains(p, "/cmd/")) && !strings.Contains(p, "/internal/") && !strings.Contains(p, "vendor/")):
+		n = "main" // commands are main packages
 	}
 	fl := gnFlags[r.Intn(len(gnFlags))]
 	switch k := r.Intn(40); {
